@@ -7,3 +7,8 @@ INT32 w_get_symbol_col(of_linear_binary_code_cb_t *ofcb, UINT32 esi) { return of
 INT32 w_get_symbol_esi(of_linear_binary_code_cb_t *ofcb, UINT32 matrix_col) { return of_get_symbol_esi(ofcb, matrix_col); }
 INT32 w_is_source_symbol(of_linear_binary_code_cb_t *ofcb, UINT32 esi) { return of_is_source_symbol(ofcb, esi); }
 INT32 w_is_repair_symbol(of_linear_binary_code_cb_t *ofcb, UINT32 esi) { return of_is_repair_symbol(ofcb, esi); }
+
+/* the bit macros of of_matrix_dense.h on one of_mod2word */
+of_mod2word w_mod2_getbit(of_mod2word w, INT32 i) { return of_mod2_getbit(w, i); }
+of_mod2word w_mod2_setbit1(of_mod2word w, INT32 i) { return of_mod2_setbit1(w, i); }
+of_mod2word w_mod2_setbit0(of_mod2word w, INT32 i) { return of_mod2_setbit0(w, i); }
